@@ -459,7 +459,7 @@ def gen_request(r, scratch, idx, kind=None):
   """A generated program (files on disk under scratch) and its compilable predicates."""
   kind = kind or r.choice(['nonrec', 'nonrec', 'rec', 'rec', 'functor', 'imports', 'imports', 'incant',
                    'needs_incant', 'bad', 'flags', 'dialect_rec', 'typed', 'typed', 'attach_rel',
-                   'combine', 'combine', 'duck_stop', 'duck_stop', 'udf', 'misc', 'misc'])
+                   'combine', 'combine', 'duck_stop', 'duck_stop', 'udf', 'misc', 'misc', 'two_agg_rec'])
   root = None
   flags = None
   bad = False
@@ -486,6 +486,25 @@ def gen_request(r, scratch, idx, kind=None):
       extra = '@Recursive(%s, %d%s);\n' % (name, r.choice([d, -1]) if 'diamond' in mode else d, mode)
     text = engine_line(r, eng) + extra + gen.render(p, engine_line=False)
     preds = gen.idb_names(p)
+  elif kind == 'two_agg_rec':
+    # two separate, iteratively unfolded recursive components, every member of which aggregates
+    # over several rule bodies (the parser gives each an auxiliary predicate); the compiled
+    # predicate reads one member of each, so each iteration has members nobody asked for
+    eng = r.choice(['sqlite', 'sqlite', 'psql', 'duckdb'])
+    n1, n2 = r.sample(['Dist', 'Hop', 'Far', 'Near', 'Cost', 'Rank', 'Zed', 'Alt', 'Way', 'Leg'], 2)
+    lines = ['@Engine("%s");' % eng]
+    body = []
+    for nm, dep_ in ((n1, r.choice([21, 24, 30])), (n2, r.choice([22, 25, 30, 8]))):
+      lines.append('@Recursive(%sA, %d%s);' % (nm, dep_, ', iterative: true' if dep_ <= 20 else ''))
+      body.append(' '.join('E%s(%d, %d);' % (nm, i, i + 1) for i in range(r.randint(3, 6))))
+      body.append('%sA(0) Min= 0;' % nm)
+      body.append('%sA(y) Min= d + 1 :- d == %sB(x), E%s(x, y);' % (nm, nm, nm))
+      body.append('%sB(y) Min= d + 1 :- d == %sA(x), E%s(x, y);' % (nm, nm, nm))
+      body.append('%sB(100) Min= 0;' % nm)
+    body.append('T(x, a, b) :- a == %sA(x), b == %sA(x);' % (n1, n2))
+    r.shuffle(body)
+    text = '\n'.join(lines + body) + '\n'
+    preds = ['T', n1 + 'A', n2 + 'B']
   elif kind == 'misc':
     # a spread of everyday features in one program: plan annotations, if-then-else, records,
     # lists, negation, several-body aggregation, string building, ArgMax, `in`
